@@ -311,7 +311,7 @@ pub(crate) fn frame(pre: &Snap, t: &Terminal, a: &Allow, tw: &TabWit) {
     if !a.len {
         assert!(s.len == pre.len, "[FR][C06][C14] no line is added to or removed from lines()");
     }
-    assert!(s.other_len == pre.other_len && s.other_rows == pre.other_rows && s.other_trim_needed == pre.other_trim_needed, "[C16] the parked screen keeps its lines");
+    assert!(s.other_len == pre.other_len && s.other_rows == pre.other_rows && s.other_trim_needed == pre.other_trim_needed, "[C16][C14] the parked screen keeps its lines");
     assert!(!t.xtwinops, "[FR] XTWINOPS stays disabled");
 }
 
@@ -1528,6 +1528,8 @@ pub(crate) fn t_switch(c: TCfg, op: SwitchOp) {
         } else {
             assert!(post_len <= plen && post_len + (prows - rows) >= plen, "[C16] a shorter screen drops at most the rows that no longer fit, and only from the bottom");
         }
+        assert!(s.row < rows && s.col <= cols && s.pending_wrap == (s.col == cols), "[C16][C02] on return all geometry invariants hold: the cursor lies inside the screen");
+        assert!(!mark_at(&t, post_len - 1), "[C16][C02] on return the last line is not soft-wrapped");
         if with_cursor {
             let sv = pre.alt_saved;
             assert!(s.pen == sv.pen && s.origin == sv.origin && s.auto_wrap == sv.auto_wrap && !s.pending_wrap, "[C17][C16] 1049 restores the cursor context saved on entry");
@@ -2049,6 +2051,136 @@ pub(crate) fn t_sgr(c: TCfg, k: usize) {
     check_exp!(&t, &w, e, "[FR] SGR changes no cell", "[FR] SGR changes no soft-wrap mark");
     assert_inv(&t);
     kv_cover!(want.bold && want.italic && want.fg.is_some(), "bold italic coloured pen");
+    kv_end!();
+    forget(t);
+}
+
+// ------------------------------------------------------------------ T-plain (C09): plain text in absolute line coordinates
+
+#[derive(Clone, Copy, PartialEq)]
+pub(crate) enum PlainStep {
+    Print,
+    PrintWrap,
+    CrLf,
+}
+
+/// Plain(t): the states plain text (printable characters and CR LF) drives a fresh primary
+/// screen into: default modes / margins / charsets, rows below the cursor row blank and
+/// unwrapped, the cursor row unwrapped with only spaces at and right of the cursor.
+/// From any such state (any lines above, any pen, 0..2 scrollback lines, unlimited scrollback):
+///  P1  Print(ch), no wrap pending: exactly lines[abs][col] := ch; no mark, no line added
+///  P2  Print(ch), wrap pending:    lines[abs] becomes soft-wrapped, ch goes to column 0 of
+///      lines[abs+1] (appended when the cursor was on the last row; earlier lines keep index,
+///      content and mark)
+///  P3  CR LF: no cell and no mark changes, the cursor goes to column 0 of lines[abs+1]
+///      (appended blank and unwrapped on the last row); the row left stays unwrapped
+///  P4  the post-state is Plain again
+/// so the layout of a text at width w is the deferred-wrap layout whatever the height and the
+/// amount scrolled, and joining rows over the soft-wrap marks gives back the input lines.
+pub(crate) fn t_plain(c: TCfg, step: PlainStep) {
+    let mut t = mk_terminal(&c);
+    let (cols, rows) = (c.cols, c.rows);
+    // force the Plain shape
+    t.insert_mode = false;
+    t.origin_mode = false;
+    t.auto_wrap_mode = true;
+    t.new_line_mode = false;
+    t.charsets = [Charset::Ascii, Charset::Ascii];
+    t.active_charset = 0;
+    let len0 = b_len(&t.buffer);
+    let o = len0 - rows;
+    let row = t.cursor.row;
+    let col = t.cursor.col;
+    match step {
+        PlainStep::Print => assume(col < cols),
+        PlainStep::PrintWrap => assume(col == cols),
+        PlainStep::CrLf => {}
+    }
+    let abs = o + row;
+    b_set_wrapped(&mut t.buffer, abs, false);
+    for cc in 0..cols {
+        if cc >= col {
+            assume(cell_at(&t, abs, cc).char() == ' ');
+        }
+    }
+    for r in row + 1..rows {
+        b_set_line(&mut t.buffer, o + r, blank_line(cols));
+    }
+    let pre = snap(&t);
+    let tw = tab_witness(&t);
+    let ch = any_char();
+    assume((ch as u32 >= 0x20 && ch as u32 <= 0x7e) || ch as u32 >= 0xa0);
+    let on_last = row == rows - 1;
+    let grows = on_last && step != PlainStep::Print;
+    let post_len = len0 + if grows { 1 } else { 0 };
+    let w = any_wit(post_len, cols);
+    let before = if w.i < len0 { Some((cell_at(&t, w.i, w.c), mark_at(&t, w.i))) } else { None };
+    match step {
+        PlainStep::Print | PlainStep::PrintWrap => t.execute(Function::Print(ch)),
+        PlainStep::CrLf => {
+            t.execute(Function::Cr);
+            t.execute(Function::Lf);
+        }
+    }
+    assert!(b_len(&t.buffer) == post_len, "[C09] a line is added exactly when the text moves past the last row");
+    let (tgt_i, tgt_c) = match step {
+        PlainStep::Print => (abs, col),
+        PlainStep::PrintWrap => (abs + 1, 0),
+        PlainStep::CrLf => (usize::MAX, 0),
+    };
+    let got = cell_at(&t, w.i, w.c);
+    if w.i == tgt_i && w.c == tgt_c {
+        assert!(got.char() == ch && *got.pen() == pre.pen, "[C09] the character lands in the next cell of the text");
+    } else {
+        match before {
+            Some((cb, _)) => assert!(got == cb, "[C09] plain text changes no other cell, however much has scrolled"),
+            None => assert!(got.char() == ' ', "[C09] a line appended by scrolling is blank"),
+        }
+    }
+    let want_mark = if step == PlainStep::PrintWrap && w.i == abs {
+        true
+    } else {
+        match before {
+            Some((_, mb)) => mb,
+            None => false,
+        }
+    };
+    assert!(mark_at(&t, w.i) == want_mark, "[C09] exactly the rows left by auto-wrap are soft-wrapped, and the mark survives the trip into the scrollback");
+    // cursor in absolute coordinates
+    let o2 = post_len - rows;
+    let cur_abs = o2 + t.cursor.row;
+    match step {
+        PlainStep::Print => {
+            assert!(cur_abs == abs && t.cursor.col == col + 1 && t.pending_wrap == (col + 1 == cols), "[C09] the cursor follows the text");
+        }
+        PlainStep::PrintWrap => {
+            assert!(cur_abs == abs + 1 && t.cursor.col == 1 && t.pending_wrap == (cols == 1), "[C09] the cursor follows the text onto the next row");
+        }
+        PlainStep::CrLf => {
+            assert!(cur_abs == abs + 1 && t.cursor.col == 0 && !t.pending_wrap, "[C09] CR LF starts the next line");
+        }
+    }
+    // P4: Plain again
+    let cr = t.cursor.row;
+    let ccol = t.cursor.col;
+    assert!(!mark_at(&t, cur_abs), "[C09] the row being written is not soft-wrapped");
+    let pc = any_in(0, cols - 1);
+    if pc >= ccol {
+        assert!(cell_at(&t, cur_abs, pc).char() == ' ', "[C09] nothing but spaces lies right of the cursor");
+    }
+    let pr = any_in(0, rows - 1);
+    if pr > cr {
+        assert!(cell_at(&t, o2 + pr, pc).char() == ' ' && !mark_at(&t, o2 + pr), "[C09] rows below the cursor stay blank and unwrapped");
+    }
+    assert!(t.auto_wrap_mode && !t.insert_mode && !t.origin_mode && !t.new_line_mode && t.top_margin == 0 && t.bottom_margin == rows - 1 && t.active_charset == 0, "[C09] plain text changes no mode");
+    let mut allow = Allow::default();
+    allow.cursor = true;
+    allow.len = true;
+    frame(&pre, &t, &allow, &tw);
+    assert_inv(&t);
+    kv_cover!(grows, "the text scrolls");
+    kv_cover!(col + 1 == cols, "the line exactly fills the width");
+    kv_cover!(ch as u32 > 0xff, "non-Latin-1 character");
     kv_end!();
     forget(t);
 }
